@@ -76,6 +76,18 @@ Theorem chain_in_order : forall rs fs ft p,
 Proof. exact chain_in_order_gen. Qed.
 Print Assumptions chain_in_order.
 
+(* SEVERAL requests, one after the other, on ONE Patron (any number, any chain lengths): every
+   delivered response carries exactly ITS OWN request's redirect responses, in arrival order -- no
+   chain leaks into a later request's response. *)
+Theorem each_response_carries_its_own_chain : forall chains p, redirects p = [] -> Forall chain_ok chains ->
+  service_all true p (flatten_chains chains) =
+  {| redirects := [];
+     responses := responses p ++
+                  map (fun c => {| rs_status := fst (snd c); rs_tag := snd (snd c); rs_redirects := fst c |}) chains;
+     waited := match chains with [] => waited p | _ => false end |}.
+Proof. exact chains_in_order_gen. Qed.
+Print Assumptions each_response_carries_its_own_chain.
+
 (* while redirect responses keep arriving nothing is delivered and the client keeps waiting *)
 Theorem redirects_are_not_delivered : forall rs p,
   Forall (fun r => is_redirect_status (fst r) = true) rs ->
